@@ -49,7 +49,10 @@ where
   Sub {
     name,
     run: Box::new(move |ctx: &Ctx| {
-      let n = ctx.tier.pick(cases.0, cases.1);
+      // the per-sub-check numbers were sized when a case cost ~1 ms; the runtime got two
+      // orders of magnitude faster since (main thread on the caller, OS thread pool)
+      let scale: u32 = std::env::var("VERIF_SCALE").ok().and_then(|s| s.parse().ok()).unwrap_or(10);
+      let n = ctx.tier.pick(cases.0, cases.1).saturating_mul(scale);
       let ctx2 = ctx.clone();
       let ctx3 = ctx.clone();
       let check = check.clone();
